@@ -41,6 +41,14 @@ def gen_op(rng, misc_ok=True, heavy=True):
     if r < 0.48:
         return "distadd %d %d %d %d %d" % (rng.choice([TPU, TNUMA, TCORE, TPACK]), rng.choice([2, 2, 3, 4, 8]), rng.choice([5, 6, 9, 10]),
                                            rng.choice([0, 0, 0, 1, 3]), rng.randint(0, 50))
+    if r < 0.50:
+        # heterogeneous matrix: PU and NUMA members (identified by os_index in homogeneous matrices) mixed with others
+        pool = [(TPU, 4), (TNUMA, 2), (TCORE, 3), (TPACK, 2), (0, 1), (TPU, 4), (TNUMA, 2)]
+        members = []
+        for _ in range(rng.randint(2, 6)):
+            d, m = rng.choice(pool)
+            members.append("%d:%d" % (d, rng.randrange(m)))
+        return "disthet %s %d %d" % (",".join(members), rng.choice([5, 6, 9, 10]), rng.randint(0, 50))
     if r < 0.52:
         return "distrm"
     if r < 0.60:
@@ -113,6 +121,8 @@ def gen_twin_history(rng):
     seeds = rng.sample(range(1, 60), 6)
     names = []
     nadd = rng.randint(1, 3)
+    if rng.random() < 0.3:     # groups created by distances before the dup: the subkind counter is > 0
+        lines.append("pre distadd %d %d 6 1 %d" % (rng.choice([TPU, TCORE]), rng.choice([4, 8]), rng.randint(91, 99)))
     for k in range(nadd):
         ty = rng.choice(TWIN_DIST_TYPES)
         lines.append("pre distadd %d %d %d 0 %d" % (ty, rng.choice([2, 2, 3, 4]), rng.choice([5, 6, 9, 10]), seeds[k]))
@@ -150,6 +160,10 @@ def gen_twin_history(rng):
             lines.append("both " + rng.choice(["info 0 0 e f", "tinfo g h", "mset 8 0 - 5", "refresh", "distfail"]))
         else:
             lines.append("both distrmdepth %d" % rng.choice(TWIN_DIST_TYPES))
+    if rng.random() < 0.3:     # object-creating steps, compared without gp_index
+        for _ in range(rng.randint(1, 2)):
+            lines.append("both " + rng.choice(["distadd %d %d 6 1 %d" % (rng.choice([TPU, TCORE, TGROUP]), rng.choice([4, 8]), rng.randint(60, 90)),
+                                               "gobj %d %d %d" % (rng.choice([TPU, TCORE]), rng.randint(0, 2), rng.randint(2, 3))]))
     first = rng.choice("AB")
     lines += ["destroy " + first, "destroy " + ("B" if first == "A" else "A")]
     return lines
@@ -166,6 +180,10 @@ def twin_boundary_cases():
         ("t:gap-by-restrict", [two], ["pre distadd 1001 2 5 0 1", "pre distadd 1003 4 6 0 2", "pre robj 1001 0 0", "pre refresh", "dup",
                                       "both distadd 1004 2 5 0 3", "both disthandle hwv3 0", "both disthandle hwv2 0", "both disthandle hwv3 3"] + d),
         ("t:gap-by-failed-add", [two], ["pre distfail", "pre distadd 1003 4 6 0 2", "dup"] + post + d),
+        # object-creating twin steps (compared without gp_index): grouping by distances continues the subkind counter of the original
+        ("t:grouping-subkind", ["src synthetic pu:8"], ["pre distadd 1004 8 6 1 0", "dup", "both distadd 1013 4 6 1 1"] + d),
+        ("t:grouping-first-on-copies", ["src synthetic pu:8"], ["dup", "both distadd 1004 8 6 1 0", "both distadd 1013 4 6 1 1"] + d),
+        ("t:misc-and-group-insert", ["filter 19 0", two], ["pre gobj 1004 0 1", "dup", "both misc 0 0 m1", "both gobj 1004 2 3", "both misc 1004 1 m2"] + d),
         ("t:all-removed-then-add", [two], ["pre distadd 1014 2 5 0 1", "pre distrm", "dup", "both distadd 1004 4 5 0 3", "both disthandle hwv3 0", "both disthandle hwv3 3"] + d),
     ]
 
@@ -233,6 +251,9 @@ def boundary_cases():
             ("b:plain", [two_numa], ["dup"] + d),
             ("b:userdata+callbacks", [two_numa], ["pre ud 0 0", "pre ud 1004 1", "pre tud", "pre cb", "dup"] + d),
             ("b:dist-invalid-cache", [two_numa], ["pre distadd 1004 4 5 0 1", "dup", "mut A distrm", "mut B distadd 1014 2 6 0 2"] + d),
+            ("b:dist-hetero-pu-numa", [two_numa], ["pre disthet 1004:1,1014:1,1003:0,1001:1,1004:2 5 7", "dup", "mut A distrm", "mut B robj 1001 1 0"] + d),
+            ("b:dist-hetero-numa-first", [two_numa], ["pre disthet 1014:0,1004:3,1014:1 6 8", "pre disthet 1003:0,1001:0 10 9", "pre distadd 1014 2 5 0 1", "pre distadd 1004 4 9 0 2", "dup", "mut B info 0 0 a b"] + d),
+            ("b:dist-hetero-after-restrict", [two_numa], ["pre disthet 1004:0,1004:5,1014:0,1014:1,1001:0 5 7", "pre robj 1001 0 0", "pre refresh", "dup"] + d),
             ("b:dist-hetero", [two_numa], ["pre distadd 1004 2 5 0 1", "pre distadd 1014 2 10 0 2", "pre distadd 1003 4 6 0 3", "dup", "mut B robj 1001 0 0"] + d),
             ("b:memattr-values", [two_numa], ["pre mreg foo 1", "pre mset 8 0 - 10", "pre mset 8 1 - 20", "pre mseto 2 0 1001 0 300", "pre mseto 2 1 1001 1 400", "dup",
                                               "mut A mset 8 0 - 11", "mut B mseto 2 0 1001 1 17"] + d),
@@ -243,6 +264,9 @@ def boundary_cases():
             ("b:infos", [two_numa], ["pre info 0 0 a b", "pre info 1004 0 c d", "pre tinfo e f", "dup", "mut A info 0 0 g h", "mut B tinfo i j"] + d),
             ("b:misc+group", ["filter 19 0", two_numa], ["pre misc 0 0 m1", "pre misc 1004 2 m2", "pre gobj 1003 0 1", "dup", "mut A misc 1 0 m3", "mut B gobj 1004 0 1"] + d),
             ("b:restricted-source", [two_numa], ["pre robj 1001 1 0", "dup", "mut A robj 1003 0 0"] + d),
+            ("b:no-cpukinds-flag-user-kinds", ["flags 512", two_numa], ["pre kobj 1003 0 1 k a", "pre kobj 1003 1 2 k b", "dup", "mut A kobj 1003 2 3 k c"] + d),
+            ("b:no-memattrs-flag-user-attr", ["flags 256", two_numa], ["pre mreg foo 1", "pre mset 0 1 - 20", "dup", "mut B mset 0 0 - 5"] + d),
+            ("b:no-distances-flag-user-distances", ["flags 128", two_numa], ["pre distadd 1004 4 5 0 1", "pre disthet 1004:0,1014:1,1003:1 6 2", "dup", "mut A distrm"] + d),
             ("b:no-memattrs", ["flags 256", two_numa], ["dup", "mut A info 0 0 a b"] + d),
             ("b:no-distances-no-cpukinds", ["flags 640", two_numa], ["dup", "mut B info 0 0 a b"] + d),
             ("b:group-by-distances-on-copy", ["src synthetic pu:8"], ["dup", "mut B distadd 1004 8 6 1 0"] + d),
